@@ -50,10 +50,12 @@ func (k c18Case) genuine(s c18Server) bool {
 		return false // the RA presents its certificate, this server verifies it against another CA and refuses the handshake
 	}
 	switch s.Identity {
+	case "ca1b":
+		return strings.HasPrefix(k.Bundle, "rotated-")
 	case "ca1":
 		return k.Bundle != "rotating:ca2"
 	case "ca2":
-		return k.Bundle != "one" && k.Bundle != "rotating:ca1"
+		return k.Bundle != "one" && k.Bundle != "rotating:ca1" && !strings.HasPrefix(k.Bundle, "rotated-")
 	}
 	return false
 }
@@ -87,7 +89,9 @@ func c18Run(c *ev.Ctx, k c18Case) {
 	files := map[string][]string{"one": {c17PKI.CA1File}, "two": {c17PKI.CA1File, c17PKI.CA2File}, "both": {c17PKI.BothFile},
 		// the same two CAs in other legal layouts (every one of them configures CA 1 and CA 2)
 		"two-no-final-newline": {c17PKI.CA1NoNLFile, c17PKI.CA2File}, "two-unrelated-first-no-final-newline": {c17PKI.PadCA1NoNLFile, c17PKI.CA2File},
-		"both-crlf-with-text": {c17PKI.BothCRLFFile}, "two-reversed": {c17PKI.CA2File, c17PKI.CA1NoNLFile}}[k.Bundle]
+		"both-crlf-with-text": {c17PKI.BothCRLFFile}, "two-reversed": {c17PKI.CA2File, c17PKI.CA1NoNLFile},
+		// CA one during a key rotation: two CA certificates with the same subject name (old and new key)
+		"rotated-two-files": {c17PKI.CA1File, c17PKI.CA1bFile}, "rotated-one-file": {c17PKI.RotatedOneFile}, "rotated-new-first": {c17PKI.CA1bFile, c17PKI.CA1File}}[k.Bundle]
 	if strings.HasPrefix(k.Bundle, "rotating:") {
 		// one configured path; its content changes over the life of the process (a rotated CA bundle). Earlier contents were
 		// each loaded by a signer that completed a call; the signer under test is built after the last rewrite.
@@ -444,7 +448,7 @@ func c18Overlap(c *ev.Ctx, k c18OverlapCase) {
 }
 
 func checkC18(c *ev.Ctx) {
-	c.Rule("real crypki.NewSigner / Sign over real TLS against harness gRPC servers on 127.0.0.1..3:port whose TLS personality is swapped per configuration: CA bundle {one file, two files, one file with two certificates; plus 4 other legal layouts of the two-CA bundle: no newline after the last END line, an unrelated CA in front, CRLF with text between blocks, reversed order; and a single path whose content is rewritten between signers (6 earlier-content histories x 3 current contents)} x server identity {configured CA 1, CA 2, foreign CA, self-signed, expired, not yet valid, other name} x protocol range {1.0-1.1, 1.2, 1.3, 1.0-1.3} x client-certificate policy {require+verify, request, ignore, request while naming only a foreign client CA, verify-if-given against a foreign client CA} (420 single-endpoint configurations), plus endpoint lists of length 2..3 with every placement of one genuine server among impostors of 3 kinds incl. a configured-CA certificate that names the first endpoint (thorough: 7 kinds, two genuine servers); plus 9 sequences of two or three calls on ONE long-lived signer with the servers behind the endpoints changing personality in between (genuine and impostor swapping places), plus one real-time scenario in which the server certificate expires, and is re-issued, during the life of one signer (14 s), plus 36 overlap scenarios: two signers with bundles {CA 1, CA 2, both} each, the first signer's call held in the server's handler (event-driven gate) while the second signer calls the same endpoint; servers record handshakes, negotiated version, peer certificates and whether the RPC handler ran. non-trivial = every configuration; distinct by configuration")
+	c.Rule("real crypki.NewSigner / Sign over real TLS against harness gRPC servers on 127.0.0.1..3:port whose TLS personality is swapped per configuration: CA bundle {one file, two files, one file with two certificates; plus 4 other legal layouts of the two-CA bundle: no newline after the last END line, an unrelated CA in front, CRLF with text between blocks, reversed order; 3 layouts of a CA in key rotation (two certificates with the SAME subject name, old and new key); and a single path whose content is rewritten between signers (6 earlier-content histories x 3 current contents)} x server identity {configured CA 1, CA 2, foreign CA, self-signed, expired, not yet valid, other name} x protocol range {1.0-1.1, 1.2, 1.3, 1.0-1.3} x client-certificate policy {require+verify, request, ignore, request while naming only a foreign client CA, verify-if-given against a foreign client CA} (420 single-endpoint configurations), plus endpoint lists of length 2..3 with every placement of one genuine server among impostors of 3 kinds incl. a configured-CA certificate that names the first endpoint (thorough: 7 kinds, two genuine servers); plus 9 sequences of two or three calls on ONE long-lived signer with the servers behind the endpoints changing personality in between (genuine and impostor swapping places), plus one real-time scenario in which the server certificate expires, and is re-issued, during the life of one signer (14 s), plus 36 overlap scenarios: two signers with bundles {CA 1, CA 2, both} each, the first signer's call held in the server's handler (event-driven gate) while the second signer calls the same endpoint; servers record handshakes, negotiated version, peer certificates and whether the RPC handler ran. non-trivial = every configuration; distinct by configuration")
 	c.Assume("TLS and gRPC libraries run with their own goroutines and real time; outcomes are deterministic functions of the configuration; handshake internals are trusted")
 	c17PKI = newPKI()
 	defer os.RemoveAll(c17PKI.dir)
@@ -502,6 +506,17 @@ func checkC18(c *ev.Ctx) {
 	}
 	for _, b := range []string{"two-no-final-newline", "two-unrelated-first-no-final-newline", "both-crlf-with-text", "two-reversed"} {
 		for _, id := range []string{"ca1", "ca2", "foreign", "selfsigned"} {
+			for _, pr := range []string{"1.2", "1.3"} {
+				c18Run(c, c18Case{Bundle: b, Servers: []c18Server{{id, pr, "require"}}})
+				c18Run(c, c18Case{Bundle: b, Servers: []c18Server{{"foreign", "1.2", "require"}, {id, pr, "require"}}})
+				n += 2
+			}
+		}
+	}
+	// a CA during a key rotation: the bundle holds two certificates with the same subject name; servers issued by either
+	// are genuine, wherever they stand in the endpoint list
+	for _, b := range []string{"rotated-two-files", "rotated-one-file", "rotated-new-first"} {
+		for _, id := range []string{"ca1", "ca1b", "ca2", "foreign"} {
 			for _, pr := range []string{"1.2", "1.3"} {
 				c18Run(c, c18Case{Bundle: b, Servers: []c18Server{{id, pr, "require"}}})
 				c18Run(c, c18Case{Bundle: b, Servers: []c18Server{{"foreign", "1.2", "require"}, {id, pr, "require"}}})
